@@ -86,6 +86,7 @@ type Field struct {
 	MapKey Kind   // != 0: map<MapKey, Kind/Type>
 	JSON   string // explicit json_name option ("" = none)
 	Packed string // "", "true", "false": explicit packed option
+	Extra  string // a further field option, verbatim (e.g. "deprecated = true")
 }
 
 // Enum declaration.
@@ -152,6 +153,9 @@ func (f *Field) text() string {
 	}
 	if f.Packed != "" {
 		opts = append(opts, "packed = "+f.Packed)
+	}
+	if f.Extra != "" {
+		opts = append(opts, f.Extra)
 	}
 	if len(opts) > 0 {
 		sb.WriteString(" [" + strings.Join(opts, ", ") + "]")
@@ -265,6 +269,13 @@ func (f *Field) MapOf(key Kind) *Field {
 	return &g
 }
 func (f *Field) WithJSON(j string) *Field { g := *f; g.JSON = j; return &g }
+// WithOption adds one more field option verbatim.
+func (f *Field) WithOption(o string) *Field {
+	g := *f
+	g.Extra = o
+	return &g
+}
+
 func (f *Field) WithPacked(p string) *Field {
 	g := *f
 	g.Packed = p
